@@ -467,6 +467,9 @@ class Child:
     def go(self, timeout=90.0):
         """let the process run its next segment; returns the event it reports"""
         os.write(self.cw, b"g")
+        return self.collect(timeout)
+
+    def collect(self, timeout=90.0):
         while b"\n" not in self.buf:
             r, _, _ = select.select([self.er], [], [], timeout)
             if not r:
